@@ -38,6 +38,7 @@ structure PlainP (P : Program) (d : DagRef) : Prop where
   nodup    : d.nodes.Nodup
   gne      : P.g.nodes ≠ []
   noCase   : ∀ e ∈ P.g.edges, e.case = none
+  noCand   : ∀ e ∈ P.g.edges, (P.g.attr e.v).oneofNodes.contains e.u = false
 
 /-- the order the launch loop follows: a duplicate-free enumeration of the DAG's nodes in which every dependency
 comes first (what `validOrder` checks of the oracle, for a DAG none of whose nodes is processed yet) -/
@@ -1948,7 +1949,11 @@ theorem topoOrd_of_validOrder {P : Program} {d : DagRef} (hp : PlainP P d) {s : 
     simp only [Graph.preds, List.mem_map, List.mem_filter]; exact ⟨e, ⟨he, hv⟩, hu⟩))
   have := h4 e he
   rw [hu, hv'] at this
-  simpa [List.contains_iff_mem, hpo, hn, hp.notRec, hp.noCase e he] using this
+  have hnc := hp.noCand e he
+  rw [hu, hv'] at hnc
+  have hnm : p ∉ (P.g.attr n).oneofNodes := by
+    intro hm; rw [List.contains_iff_mem.mpr hm] at hnc; cases hnc
+  simpa [List.contains_iff_mem, hpo, hn, hp.notRec, hp.noCase e he, hnm] using this
 
 /-- **every section of the main `_run_dag` task preserves the invariant** -/
 theorem pinv_step_main {P : Program} {d : DagRef} (hp : PlainP P d) {s : St} (h : PInv P d val s)
@@ -2750,6 +2755,7 @@ theorem plainP_of_check {P : Program} {d : DagRef} (hc : plainCheck P d = true)
   exact { noSwitch := hsw, noHead := hhd, noRecur := hr, noRecurD := hrd, pools := h10,
           main := fun s hs => by rw [reducedRef_congr_opened P s hs]; exact h1,
           dest := h2, notRec := h3, notOneof := h4, predsIn := h5, outIn := h6, nodup := h7, gne := h8,
-          noCase := fun e he => by have := h9 e he; simpa using this }
+          noCase := fun e he => by have := (h9 e he).1; simpa using this,
+          noCand := fun e he => (h9 e he).2 }
 
 end MLPE.Eng
